@@ -245,7 +245,7 @@ class Engine:
             if not cond:
                 r = self._check()
                 if r == z3.sat:
-                    self.violations.append(Violation(label, self.s.model(), list(self.trace)))
+                    self.violations.append(Violation(label, self._witness_model(z3.BoolVal(True)), list(self.trace)))
                     raise Abort("violated")
                 if r == z3.unknown:
                     raise Abort("unknown")
@@ -1641,6 +1641,41 @@ class NPShim:
             return self._np.fill_diagonal(a, val)
         for i in range(min(a.shape)):
             a[i, i] = val
+
+    def add(self, a, b, out=None, dtype=None):
+        if not isinstance(a, SymArray) and not isinstance(b, SymArray):
+            return self._np.add(a, b, out=out, dtype=dtype) if out is not None or dtype is not None else self._np.add(a, b)
+        if not isinstance(a, SymArray):
+            a, b = b, a
+        vb = b.cells_list() if isinstance(b, SymArray) else [b] * a.size
+        if isinstance(b, SymArray) and b.shape != a.shape:
+            raise EngineError("np.add on different shapes is not modelled")
+        res = [x + y for x, y in zip(a.cells_list(), vb)]
+        if out is None:
+            return SymArray(res, a.shape, name="add", dtype=self._dt(dtype) if dtype is not None else a.dtype)
+        for p_, v in zip(out._positions(), res):
+            out.cells[p_] = out._store_check(v)
+        return out
+
+    def allclose(self, a, b, rtol=1e-05, atol=1e-08, equal_nan=False):
+        """numpy's definition: all(|a - b| <= atol + rtol * |b|) (real arithmetic on the exact values of the float tolerances)"""
+        if not isinstance(a, SymArray) and not isinstance(b, SymArray):
+            return self._np.allclose(a, b, rtol=rtol, atol=atol, equal_nan=equal_nan)
+        va = a.cells_list() if isinstance(a, SymArray) else None
+        vb = b.cells_list() if isinstance(b, SymArray) else None
+        if va is None:
+            va = [a] * len(vb)
+        if vb is None:
+            vb = [b] * len(va)
+        if len(va) != len(vb):
+            raise EngineError("np.allclose on different shapes is not modelled")
+        cs = []
+        for x, y in zip(va, vb):
+            xe, ye = z3.ToReal(lift(x)) if z3.is_int(lift(x)) else lift(x), z3.ToReal(lift(y)) if z3.is_int(lift(y)) else lift(y)
+            d = xe - ye
+            ay = z3.If(ye >= 0, ye, -ye)
+            cs.append(z3.If(d >= 0, d, -d) <= lift(float(atol)) + lift(float(rtol)) * ay)
+        return mkb(z3.simplify(z3.And(*cs))) if cs else True
 
     def multiply(self, a, b, out=None):
         va, vb = a.cells_list(), b.cells_list()
